@@ -88,3 +88,4 @@ Print Assumptions C12_compaction_then_receive.
 Print Assumptions C12_compaction_with_dash_loses.
 Print Assumptions C12_live_receiver.
 Print Assumptions C12_spec_sound.
+Print Assumptions C12_inhabited.
